@@ -65,11 +65,25 @@ pub fn wrapped(l: &avt::Line) -> bool {
     avt::util::TextUnwrapper::new().push(l).is_none()
 }
 
+/// Builds a terminal through the public builder. The order of the two builder calls and whether the
+/// builder has been used before are varied (deterministically, from the geometry): every order is a
+/// legal use of the API and must give the same terminal.
 pub fn build(cols: usize, rows: usize, limit: Option<usize>) -> Vt {
     let mut b = Vt::builder();
-    b.size(cols, rows);
-    if let Some(l) = limit {
-        b.scrollback_limit(l);
+    if (cols ^ rows) & 1 == 0 {
+        if let Some(l) = limit {
+            b.scrollback_limit(l);
+        }
+        b.size(cols, rows);
+    } else {
+        b.size(cols, rows);
+        if let Some(l) = limit {
+            b.scrollback_limit(l);
+        }
+    }
+    if (cols + 2 * rows) % 3 == 0 && cols * rows <= 4096 {
+        // a builder may be reused
+        let _first = b.build();
     }
     b.build()
 }
